@@ -2,6 +2,7 @@ import GinjaxVerif.Lemmas.C07Build
 import GinjaxVerif.Lemmas.C07Train
 import GinjaxVerif.Lemmas.C07Shift
 import GinjaxVerif.Lemmas.C07ShiftUNet
+import GinjaxVerif.Lemmas.Capstone
 import GinjaxVerif.Properties.C08
 import GinjaxVerif.Properties.C09
 import Mathlib.Algebra.Order.Field.Rat
@@ -488,5 +489,217 @@ example (g : SP 2) (y : MI ℚ 2) (hy : eval exF exSmall exRamp = some y) :
     (exSmall_wellFormed g) exSmall_poolGeneric y hy
 
 end Examples
+
+/-! ### capstone: the bank hypothesis discharged for the generated invariant filters
+
+`Lemmas/Capstone.lean` builds the bank `Capstone.bankOfFamily R ops M ks ps t` — the Lean counterpart of
+`geom.get_invariant_filters(Ms=[M], ks, parities, D, operators)` as assembled by
+`MultiImage.from_images`, from the executable C03 model `uniqueInvariantFilters`, with values cast to
+`R` and an arbitrary factor `t key f` per filter — and proves from C03 (`model_family_basis`) and the
+link C03 ↔ C02 (`Lemmas/C03Link.lean`) that it satisfies `Layer.BankInv` for every operator of the
+list.  Below that hypothesis of C06 / C07 is discharged: the chain
+
+  generated filters ⇒ invariant bank ⇒ equivariant layer ⇒ equivariant network ⇒ equivariant trained
+  network
+
+is closed inside Lean.  `ops : List (C03.SP d)` is any operator list that is a finite group of signed
+permutation matrices (`Capstone.ClosedOps`: non-empty, duplicate free, closed under the matrix product:
+`B_d`, its rotation subgroup, `C2^d`, …); `h ∈ ops` acts as C02's signed permutation `C03.toAction h`
+(same matrix: `C03.toAction_mat`).  Everything holds for every `d`, side `M` (odd where C07 requires
+it), lists of orders `ks` and parities `ps`, rescaling `t`, and every parameter value.  The hypotheses
+that genuinely remain are explicit. -/
+
+section Generated
+
+/-- **(b) the generated bank is invariant** under every operator of the list, in exactly the sense
+`Layer.BankInv` that C06 / C07 assume -/
+theorem bankOfFamily_invariant [CommRing R] {ops : List (C03.SP d)} (hops : Capstone.ClosedOps ops)
+    (M : Nat) (ks ps : List Nat) (t : Ty → Nat → R) (h : C03.SP d) (hh : h ∈ ops) :
+    BankInv (C03.toAction h) (fun _ => M) (Capstone.bankOfFamily R ops M ks ps t) :=
+  Capstone.bankOfFamily_invariant hops M ks ps t h hh
+
+/-- the same with the operator given as a signed permutation `g` of C02 (matrix `g.mat`) -/
+theorem bankOfFamily_invariant_action [CommRing R] {ops : List (C03.SP d)}
+    (hops : Capstone.ClosedOps ops) (M : Nat) (ks ps : List Nat) (t : Ty → Nat → R) (g : SP d)
+    (hg : C03.spOfAction g ∈ ops) :
+    BankInv g (fun _ => M) (Capstone.bankOfFamily R ops M ks ps t) :=
+  Capstone.bankOfFamily_invariant_action hops M ks ps t g hg
+
+/-- keys, dict order and block shapes of the generated bank are C03's `assembleBank` -/
+theorem bankOfFamily_shape [CommRing R] (ops : List (C03.SP d)) (M : Nat) (ks ps : List Nat)
+    (t : Ty → Nat → R) :
+    C03.assembleBank (ops.map C03.SP.toCore) [M] ks ps =
+      match (Capstone.bankOfFamily R ops M ks ps t).map (fun e => (e.1, (e.2.chans, M))) with
+      | [] => none
+      | l => some l :=
+  Capstone.bankOfFamily_shape R ops M ks ps t
+
+/-- **C06 for the generated bank** (model of the code `layerV`): every weight / bias / `μ` value;
+remaining hypotheses: distinct target keys, symmetric options that fit, input on the layer's grid -/
+theorem layer_equivariant_generated [CommRing R] {ops : List (C03.SP d)}
+    (hops : Capstone.ClosedOps ops) (M : Nat) (ks ps : List Nat) (t : Ty → Nat → R) (h : C03.SP d)
+    (hh : h ∈ ops) (P : Params R d) (hM : ∀ j, (P.ax j).M = M)
+    (hbank : P.bank = Capstone.bankOfFamily R ops M ks ps t) (hn : KeysNodup P.target)
+    (hs : ∀ j, (P.ax j).Sym) (hf : ∀ j, (P.ax j).Fits) (x : MImg R d)
+    (hx : ∀ e ∈ x, e.2.dims = fun j => (P.ax j).N) (ty : Ty) (n : Nat) (ht : (ty, n) ∈ P.target) :
+    (Layer.lookup (layerV (P.push (C03.toAction h)) (actMI (C03.toAction h) x)) ty).isSome
+        = (Layer.lookup (layerV P x) ty).isSome ∧
+    ∀ b b', Layer.lookup (layerV P x) ty = some b →
+      Layer.lookup (layerV (P.push (C03.toAction h)) (actMI (C03.toAction h) x)) ty = some b' →
+      b'.chans = (actBlock (C03.toAction h) ty b).chans ∧
+      b'.dims = (actBlock (C03.toAction h) ty b).dims ∧
+      ∀ o, o < n → ∀ (i' : Pix d) (T : List (Fin d)), T.length = ty.1 →
+        b'.val o i' T = (actBlock (C03.toAction h) ty b).val o i' T :=
+  Capstone.layer_equivariant_generated hops M ks ps t h hh P hM hbank hn hs hf x hx ty n ht
+
+/-- the static hypotheses of a `ConvBlock` with the generated bank: only the options remain -/
+theorem blockOK_generated [CommRing R] {ops : List (C03.SP d)} (hops : Capstone.ClosedOps ops)
+    (ks ps : List Nat) (t : Ty → Nat → R) (h : C03.SP d) (hh : h ∈ ops) (a : BlockArgs R d)
+    (hbank : a.bank = Capstone.bankOfFamily R ops a.M ks ps t) (hpad : a.pad = .none)
+    (hld : a.ld = 1) (hodd : a.M % 2 = 1) (hn : KeysNodup a.outKeys)
+    (hnorm : a.groupNorm = true → ∀ b ∈ a.outKeys, b.1.1 ≤ 1) : BlockOK (C03.toAction h) a :=
+  { pad := hpad, ld := hld, odd := hodd, nodup := hn,
+    inv := by rw [hbank]; exact Capstone.bankOfFamily_invariant hops a.M ks ps t h hh
+    norm := hnorm }
+
+/-- the static hypotheses of `ResNet` / `DilResNet` with the generated bank -/
+theorem netOK_generated [CommRing R] {ops : List (C03.SP d)} (hops : Capstone.ClosedOps ops)
+    (ks ps : List Nat) (t : Ty → Nat → R) (h : C03.SP d) (hh : h ∈ ops) (c : NetArgs R d)
+    (hbank : c.bank = Capstone.bankOfFamily R ops c.M ks ps t) (hodd : c.M % 2 = 1)
+    (hmid : KeysNodup c.mid) (hout : KeysNodup c.outSig)
+    (hnorm : c.groupNorm = true → ∀ b ∈ c.mid, b.1.1 ≤ 1) : NetOK (C03.toAction h) c :=
+  { odd := hodd, midNodup := hmid, outNodup := hout,
+    inv := by rw [hbank]; exact Capstone.bankOfFamily_invariant hops c.M ks ps t h hh
+    norm := hnorm }
+
+/-- the static hypotheses of the `UNet`: conv bank of side `c.M`, up-sampling bank = the generated
+family of side 2 (its own orders, parities and rescaling) -/
+theorem unetOK_generated [CommRing R] {ops : List (C03.SP d)} (hops : Capstone.ClosedOps ops)
+    (ks ps ks2 ps2 : List Nat) (t t2 : Ty → Nat → R) (h : C03.SP d) (hh : h ∈ ops) (c : NetArgs R d)
+    (hbank : c.bank = Capstone.bankOfFamily R ops c.M ks ps t) (hup : c.upM = 2)
+    (hupbank : c.upBank = Capstone.bankOfFamily R ops 2 ks2 ps2 t2) (hodd : c.M % 2 = 1)
+    (hmid : KeysNodup c.mid) (hout : KeysNodup c.outSig)
+    (hnorm : c.groupNorm = true → ∀ b ∈ c.mid, b.1.1 ≤ 1) : UNetOK (C03.toAction h) c :=
+  { toNetOK := netOK_generated hops ks ps t h hh c hbank hodd hmid hout hnorm
+    upM := hup
+    upInv := by rw [hupbank, hup]; exact Capstone.bankOfFamily_invariant hops 2 ks2 ps2 t2 h hh }
+
+/-- the bank leaves of a model all come from generated banks (any sides: the conv bank and the side-2
+up-sampling bank of a U-Net, …) ⇒ C09's hypothesis `BankInvariant` for the group of the list -/
+theorem bankInvariant_generated [CommRing R] {ops : List (C03.SP d)} (hops : Capstone.ClosedOps ops)
+    (m : C09.Model (Net R d) (ParamFam R) (FB R d))
+    (hbank : ∀ b ∈ m.bank, ∃ (M : Nat) (ks ps : List Nat) (t : Ty → Nat → R),
+      b ∈ Capstone.leavesOfBank (Capstone.bankOfFamily R ops M ks ps t)) :
+    C09.BankInvariant (Subtype (Capstone.InOps ops)) m := by
+  intro b hb g
+  obtain ⟨M, ks, ps, t, hm⟩ := hbank b hb
+  exact Capstone.leaves_invariant hops M ks ps t b hm g
+
+variable [Field R] [LinearOrder R]
+
+/-- **every `ConvBlock` built on the generated filters is equivariant** under every operator of the
+list, for every parameter value -/
+theorem convBlock_equivariant_generated {ops : List (C03.SP d)} (hops : Capstone.ClosedOps ops)
+    (ks ps : List Nat) (t : Ty → Nat → R) (h : C03.SP d) (hh : h ∈ ops) (F : Fns R d)
+    (hS : ConjEquivariant F.S) (θ : ParamFam R) (id : List Nat) (a : BlockArgs R d)
+    (hbank : a.bank = Capstone.bankOfFamily R ops a.M ks ps t) (hpad : a.pad = .none)
+    (hld : a.ld = 1) (hodd : a.M % 2 = 1) (hn : KeysNodup a.outKeys)
+    (hnorm : a.groupNorm = true → ∀ b ∈ a.outKeys, b.1.1 ≤ 1) (x : MI R d) (hx : x.Consistent)
+    (hN : ∀ j, 0 < x.dims j) (y : MI R d) (hy : eval F (mkConvBlock θ id a) x = some y) :
+    ∃ y', eval F (mkConvBlock θ id a) (act (C03.toAction h) x) = some y' ∧
+      MI.Equiv y' (act (C03.toAction h) y) :=
+  convBlock_equivariant (C03.toAction h) F hS θ id a
+    (blockOK_generated hops ks ps t h hh a hbank hpad hld hodd hn hnorm) x hx hN y hy
+
+/-- **every `ResNet` built on the generated filters is equivariant** under every operator of the list,
+for every parameter value; remaining hypotheses: odd side, distinct keys, `GroupNorm` only on orders
+`≤ 1`, `ConjEquivariant F.S`, a consistent input with positive extents on which the net evaluates -/
+theorem resnet_equivariant_generated {ops : List (C03.SP d)} (hops : Capstone.ClosedOps ops)
+    (ks ps : List Nat) (t : Ty → Nat → R) (h : C03.SP d) (hh : h ∈ ops) (F : Fns R d)
+    (hS : ConjEquivariant F.S) (θ : ParamFam R) (c : NetArgs R d)
+    (hbank : c.bank = Capstone.bankOfFamily R ops c.M ks ps t) (hodd : c.M % 2 = 1)
+    (hmid : KeysNodup c.mid) (hout : KeysNodup c.outSig)
+    (hnorm : c.groupNorm = true → ∀ b ∈ c.mid, b.1.1 ≤ 1) (x : MI R d) (hx : x.Consistent)
+    (hN : ∀ j, 0 < x.dims j) (y : MI R d) (hy : eval F (mkResNet θ c) x = some y) :
+    ∃ y', eval F (mkResNet θ c) (act (C03.toAction h) x) = some y' ∧
+      MI.Equiv y' (act (C03.toAction h) y) :=
+  resnet_equivariant (C03.toAction h) F hS θ c
+    (netOK_generated hops ks ps t h hh c hbank hodd hmid hout hnorm) x hx hN y hy
+
+/-- **every `DilResNet` built on the generated filters is equivariant** -/
+theorem dilresnet_equivariant_generated {ops : List (C03.SP d)} (hops : Capstone.ClosedOps ops)
+    (ks ps : List Nat) (t : Ty → Nat → R) (h : C03.SP d) (hh : h ∈ ops) (F : Fns R d)
+    (hS : ConjEquivariant F.S) (θ : ParamFam R) (c : NetArgs R d)
+    (hbank : c.bank = Capstone.bankOfFamily R ops c.M ks ps t) (hodd : c.M % 2 = 1)
+    (hmid : KeysNodup c.mid) (hout : KeysNodup c.outSig)
+    (hnorm : c.groupNorm = true → ∀ b ∈ c.mid, b.1.1 ≤ 1) (x : MI R d) (hx : x.Consistent)
+    (hN : ∀ j, 0 < x.dims j) (y : MI R d) (hy : eval F (mkDilResNet θ c) x = some y) :
+    ∃ y', eval F (mkDilResNet θ c) (act (C03.toAction h) x) = some y' ∧
+      MI.Equiv y' (act (C03.toAction h) y) :=
+  dilresnet_equivariant (C03.toAction h) F hS θ c
+    (netOK_generated hops ks ps t h hh c hbank hodd hmid hout hnorm) x hx hN y hy
+
+/-- **every `UNet` built on the generated filters** (conv bank of side `c.M`, up-sampling bank the
+family of side 2) **is equivariant**; remaining hypotheses as for the ResNet plus extents divisible
+by `2^num_downsamples` and unique pooling maxima along the evaluation (`PoolGeneric`) -/
+theorem unet_equivariant_generated {ops : List (C03.SP d)} (hops : Capstone.ClosedOps ops)
+    (ks ps ks2 ps2 : List Nat) (t t2 : Ty → Nat → R) (h : C03.SP d) (hh : h ∈ ops) (F : Fns R d)
+    (hS : ConjEquivariant F.S) (θ : ParamFam R) (c : NetArgs R d)
+    (hbank : c.bank = Capstone.bankOfFamily R ops c.M ks ps t) (hup : c.upM = 2)
+    (hupbank : c.upBank = Capstone.bankOfFamily R ops 2 ks2 ps2 t2) (hodd : c.M % 2 = 1)
+    (hmid : KeysNodup c.mid) (hout : KeysNodup c.outSig)
+    (hnorm : c.groupNorm = true → ∀ b ∈ c.mid, b.1.1 ≤ 1) (x : MI R d) (hx : x.Consistent)
+    (hN : ∀ j, 0 < x.dims j) (hdiv : ∀ j, 2 ^ c.numDown ∣ x.dims j)
+    (hgen : PoolGeneric F (mkUNet θ c) x) (y : MI R d) (hy : eval F (mkUNet θ c) x = some y) :
+    ∃ y', eval F (mkUNet θ c) (act (C03.toAction h) x) = some y' ∧
+      MI.Equiv y' (act (C03.toAction h) y) :=
+  unet_equivariant (C03.toAction h) F hS θ c
+    (unetOK_generated hops ks ps ks2 ps2 t t2 h hh c hbank hup hupbank hodd hmid hout hnorm)
+    x hx hN hdiv hgen y hy
+
+/-- **after ANY training history, a model whose bank leaves are generated filters commutes with every
+operator of the list** (pooling included: per input, with `PoolGeneric`); the plan must be well formed
+(bank aside) at the input, `F.S` conjugation equivariant -/
+theorem trained_model_equivariant_generated {ops : List (C03.SP d)} (hops : Capstone.ClosedOps ops)
+    (F : Fns R d) (hS : ConjEquivariant F.S) (m : C09.Model (Net R d) (ParamFam R) (FB R d))
+    (hbank : ∀ b ∈ m.bank, ∃ (M : Nat) (ks ps : List Nat) (t : Ty → Nat → R),
+      b ∈ Capstone.leavesOfBank (Capstone.bankOfFamily R ops M ks ps t))
+    (us : List (C09.Update (ParamFam R) R)) (h : C03.SP d) (hh : h ∈ ops) (x : MI R d)
+    (hx : x.Consistent) (hwf : WellFormedPlan x.torus m.plan x.dims)
+    (hgen : PoolGeneric F (netOf (C09.train m us).plan (C09.train m us).params (C09.train m us).bank) x)
+    (y : MI R d)
+    (hy : eval F (netOf (C09.train m us).plan (C09.train m us).params (C09.train m us).bank) x = some y) :
+    ∃ y', eval F (netOf (C09.train m us).plan (C09.train m us).params (C09.train m us).bank)
+        (act (C03.toAction h) x) = some y' ∧ MI.Equiv y' (act (C03.toAction h) y) :=
+  trained_model_equivariant (Capstone.InOps ops) F hS m (bankInvariant_generated hops m hbank) us
+    (C03.toAction h) ⟨h, hh, rfl⟩ x hx hwf hgen y hy
+
+/-- **… and for plans without pooling (every `ResNet`, `DilResNet`, `ConvBlock`) the trained network is
+strictly equivariant** as a map into multi-images modulo extensional equality, for the whole group of
+the operator list (C09's `trained_equivariant` with both hypotheses discharged) -/
+theorem trained_net_equivariant_generated {ops : List (C03.SP d)} (hops : Capstone.ClosedOps ops)
+    (F : Fns R d) (hS : ConjEquivariant F.S) (m : C09.Model (Net R d) (ParamFam R) (FB R d))
+    (hwf : PlanOK m.plan)
+    (hbank : ∀ b ∈ m.bank, ∃ (M : Nat) (ks ps : List Nat) (t : Ty → Nat → R),
+      b ∈ Capstone.leavesOfBank (Capstone.bankOfFamily R ops M ks ps t))
+    (us : List (C09.Update (ParamFam R) R)) :
+    C09.Equivariant (Subtype (Capstone.InOps ops))
+      (evalQ F (C09.train m us).plan (C09.train m us).params (C09.train m us).bank) :=
+  trained_net_equivariant (Capstone.InOps ops) (Capstone.inOps_inv hops) F hS m hwf
+    (bankInvariant_generated hops m hbank) us
+
+/-- non-vacuity: a U-Net configuration whose conv bank and up-sampling bank are the generated families
+of the rotation group of the square (orders 0–2, both parities) satisfies every static hypothesis, for
+every operator of the group -/
+def genArgs : NetArgs ℚ 2 :=
+  { exArgs with
+    bank := Capstone.bankOfFamily ℚ Capstone.rotOps 3 [0, 1, 2] [0, 1] (fun _ _ => 1)
+    upBank := Capstone.bankOfFamily ℚ Capstone.rotOps 2 [0, 1, 2] [0, 1] (fun _ _ => 1) }
+
+example (h : C03.SP 2) (hh : h ∈ Capstone.rotOps) : UNetOK (C03.toAction h) genArgs :=
+  unetOK_generated Capstone.rotOps_closed [0, 1, 2] [0, 1] [0, 1, 2] [0, 1] (fun _ _ => 1)
+    (fun _ _ => 1) h hh genArgs rfl rfl rfl rfl (by decide) (by decide) (by intro _; decide)
+
+end Generated
 
 end GinjaxVerif.C07
